@@ -85,7 +85,7 @@ def build_plan(tier, nruns=None, seed=0):
             plan.append((name, None, i % 4 == 3))
     mix = [("random-light", 44), ("random-medium", 24), ("random-heavy", 6),
            ("crosscurve", 8), ("evict", 8), ("samekind-rand", 6), ("sharedvals", 3),
-           ("classchurn", 3), ("crosssuite", 2)]
+           ("classchurn", 3), ("crosssuite", 2), ("pairkind", 10)]
     names = [m for m, _ in mix]
     ws = [w for _, w in mix]
     r = random.Random(12345)
@@ -123,6 +123,18 @@ def make_spec(server, seed, index, tier, entry):
     elif scen == "samekind-rand":
         spec = g.scn_samekind(rng.choice([t for t in G.TEMPLATES if t.cost < 150]),
                               faults=faults)
+    elif scen == "pairkind":
+        if param:
+            kf, _, kg = param.partition("|")
+            tf = G.BY_KIND[kf]
+            tg = G.BY_KIND[kg] if kg else g.pair_partner(tf)
+        else:
+            pool = [t for t in G.TEMPLATES if t.cost <= 400 and t.group not in ("lazy", "generic")
+                    and not (t.group.startswith("field:") and t.group[6:] in G.ADHOC)]
+            gsel = rng.choice(sorted({t.group for t in pool}))
+            tf = rng.choice([t for t in pool if t.group == gsel])
+            tg = g.pair_partner(tf)
+        spec = g.scn_pairkind(tf, tg, faults=faults)
     elif scen == "cold":
         spec = g.scn_cold(faults=faults)
     elif scen == "cold-order":
